@@ -244,6 +244,10 @@ pub fn item(it: &Value, lay: &mut Layout, res: Option<&Value>) -> String {
         "S" => format!("{}{}={}{};", it["x"].as_str().unwrap(), lay.sp(), lay.sp(), expr(&it["e"], lay)),
         "SI" => format!("{}[{}]{}={}{};", it["x"].as_str().unwrap(), expr(&it["i"], lay), lay.sp(), lay.sp(), expr(&it["e"], lay)),
         "P" => format!("print!({},{}\"\\n\");", expr(&it["e"], lay), lay.sp()),
+        "PP" => {
+            let parts: Vec<String> = it["es"].as_array().unwrap().iter().map(|e| format!("{},{}\"\\n\"", expr(e, lay), lay.sp())).collect();
+            format!("print!({});", parts.join(&format!(",{}", lay.sp())))
+        }
         "M" => format!("print!(\"#\", {}usize, \"\\n\");", it["i"].as_u64().unwrap_or(0)),
         "CALL" => {
             let args: Vec<String> = it["args"].as_array().unwrap().iter().map(|x| expr(x, lay)).collect();
